@@ -111,6 +111,7 @@ func setupScenario(c *lib.Chain, r *lib.Rand) *scenario {
 	c.Mint(funder.Acc(), lib.FX(5000))
 	must(c.App.DistrKeeper.FundCommunityPool(ctx, sdk.NewCoins(lib.FX(1000)), funder.Acc()))
 	s.recipient = lib.EthKey(c.Seed, "c16-recipient", 0).Acc()
+	setupRecoverableClients(c)
 	must(c.NextBlock())
 	must(c.NextBlock())
 	// a raw store entry to compare-and-set: the erc20 params key
@@ -323,8 +324,8 @@ func (s *scenario) build(row authMsg, r *lib.Rand, chains []string) []payload {
 		p.UpgradeTimeout = ibcchantypes.NewTimeout(ibcclienttypes.ZeroHeight(), uint64(time.Duration(10+r.Intn(100))*time.Minute))
 		return one(&ibcchantypes.MsgUpdateParams{Params: p})
 	case "/ibc.core.client.v1.MsgRecoverClient":
-		return []payload{{Msg: &ibcclienttypes.MsgRecoverClient{SubjectClientId: "07-tendermint-0", SubstituteClientId: "07-tendermint-1"},
-			NoPositive: "needs an expired and a substitute light client; only the rejection side is exercised"}}
+		// subject 07-tendermint-0 is expired, substitute 07-tendermint-1 is active and matches it (set up in setupScenario)
+		return one(&ibcclienttypes.MsgRecoverClient{SubjectClientId: "07-tendermint-0", SubstituteClientId: "07-tendermint-1"})
 	case "/ibc.core.client.v1.MsgIBCSoftwareUpgrade":
 		cs := ibctm.NewClientState("fxcore-upgraded", ibctm.DefaultTrustLevel, 14*24*time.Hour, 21*24*time.Hour, 10*time.Second,
 			ibcclienttypes.NewHeight(1, uint64(c.Height+200)), ibccommitment.GetSDKSpecs(), []string{"upgrade", "upgradedIBCState"})
@@ -333,4 +334,27 @@ func (s *scenario) build(row authMsg, r *lib.Rand, chains []string) []payload {
 		return one(&ibcclienttypes.MsgIBCSoftwareUpgrade{Plan: upgradetypes.Plan{Name: fmt.Sprintf("ibc-v%d", r.Intn(1000)), Height: c.Height + 150}, UpgradedClientState: anyCS})
 	}
 	return nil
+}
+
+// setupRecoverableClients: an EXPIRED tendermint light client (07-tendermint-0) and an ACTIVE one with matching
+// parameters at a greater height (07-tendermint-1), written the way the client keeper stores them, so that
+// MsgRecoverClient has something to recover (its positive control).
+func setupRecoverableClients(c *lib.Chain) {
+	ctx := c.Ctx
+	ck := c.App.IBCKeeper.ClientKeeper
+	mk := func(h uint64, trusting time.Duration) *ibctm.ClientState {
+		return ibctm.NewClientState("counterparty-1", ibctm.DefaultTrustLevel, trusting, 21*24*time.Hour, 10*time.Second,
+			ibcclienttypes.NewHeight(1, h), ibccommitment.GetSDKSpecs(), []string{"upgrade", "upgradedIBCState"})
+	}
+	put := func(id string, cs *ibctm.ClientState, ts time.Time) {
+		ck.SetClientState(ctx, id, cs)
+		cons := ibctm.NewConsensusState(ts, ibccommitment.NewMerkleRoot([]byte("root-"+id)), make([]byte, 32))
+		ck.SetClientConsensusState(ctx, id, cs.LatestHeight, cons)
+		store := ck.ClientStore(ctx, id)
+		ibctm.SetProcessedTime(store, cs.LatestHeight, uint64(ctx.BlockTime().UnixNano()))
+		ibctm.SetProcessedHeight(store, cs.LatestHeight, ibcclienttypes.NewHeight(0, uint64(ctx.BlockHeight())))
+	}
+	now := c.Time
+	put("07-tendermint-0", mk(10, time.Hour), now.Add(-3*time.Hour))
+	put("07-tendermint-1", mk(20, 14*24*time.Hour), now)
 }
